@@ -31,6 +31,12 @@ def block(seq):
 
 
 def cases(rng, tier):
+    # the same query several times in a row on one object
+    for c in gen.repeated_call_cases(rng, 8 if tier == "quick" else 60, ['delta'], gen.CLAMP_BAND[:8] if False else ()):
+        yield c
+    # very long chains (> 1000 residues, lengths that are not round numbers)
+    for sq in gen.very_long(rng, tier != "quick"):
+        yield Case(["q %s %s%s" % (q.split(" ")[0], sq, "".join(" " + a for a in q.split(" ")[1:])) for q in ['delta', 'sigma']], {"kind": "very-long"})
     # objects built from sequence files (two per block)
     for c in gen.file_cases(rng, 12 if tier == "quick" else 100, ['delta', 'sigma']):
         yield c
